@@ -3,8 +3,10 @@ C11 — executable model: interpreter of the guards extracted from the current s
 kernel preconditions `Pre_K`, and the seeding loop of `slic` (the one loop whose bound depends on a parameter that
 the repaired wrapper now guards).
 
-Driver protocol:  `c11 kind=guards fn=<short name> <param>=<kind,ndim,dcls,flags,ival,shape…> …`
+Driver protocol:  `c11 kind=guards fn=<short name> <param>=<kind,ndim,dcls,flags,ival,shape…> [<param>.x=<tnum>,<nnz>] …`
                   → `verdict=accept|reject|unknown-fn atom=<index of the first rejecting atom or -1> n=<number of atoms>`
+                  `c11 kind=nguards fn=<_module.name> <C variable>=<descriptor> [<C variable>.x=<tnum>,<nnz>] …`
+                  → the same for the guards of the native entry point, plus `action=<code of the rejecting atom>`
                   `c11 kind=seeds s=<S> n=<N>` → `seeds=<positions> count=<k>`  (transliteration of `for (y = S/2; y < N; y += S)`)
 -/
 import Mahotas.Model.C11Base
@@ -16,7 +18,21 @@ def descOfInts : List Int → Desc
   | k :: nd :: dc :: fl :: iv :: sh => { kind := k.toNat, ndim := nd.toNat, dcls := dc.toNat, flags := fl.toNat, ival := iv, shape := sh.map Int.toNat }
   | _ => {}
 
-def envOfArgs (a : Args) : Env := fun name => if a.has name then descOfInts (a.ints name) else {}
+/-- `<param>=<kind,ndim,dcls,flags,ival,shape…>` and optionally `<param>.x=<tnum>,<nnz>` -/
+def envOfArgs (a : Args) : Env := fun name =>
+  if a.has name then
+    let d := descOfInts (a.ints name)
+    match a.ints (name ++ ".x") with
+    | t :: z :: _ => { d with tnum := t.toNat, nnz := z.toNat }
+    | [t] => { d with tnum := t.toNat }
+    | [] => d
+  else {}
+
+def nativeGuardsOf (full : String) : Option (List NAtom) :=
+  (Generated.nativeGuardTable.find? (fun e => e.1 == full)).map (·.2.2)
+
+def actionsOf (key : String) : List Nat :=
+  ((Generated.guardActionTable.find? (fun e => e.1 == key)).map (·.2.2)).getD []
 
 def guardsOf (short : String) : Option (List Atom) :=
   (Generated.wrapperGuards.find? (fun e => e.2.1 == short)).map (·.2.2)
@@ -45,6 +61,68 @@ def PreCwatershed (env : Env) : Prop := (env "surface").shape = (env "markers").
 /-- `disk`: a positive dimension -/
 def PreDisk (env : Env) : Prop := 1 ≤ (env "dim").ival
 
+/-! ### kernel preconditions, round 2: each is the hypothesis of the bounds theorem of the kernel (Properties/C10.lean) read off
+the descriptors. Native names are the C variables of the entry point, wrapper names the Python parameters. -/
+
+/-- `_convolve.template_match`: image and template have the same rank (the filter iterator walks both with one
+    position vector); the output has the shape of the image and is written through a raw pointer -/
+def PreTemplateMatch (env : Env) : Prop :=
+  (env "array").ndim = (env "template_").ndim ∧ (env "output").shape = (env "array").shape ∧ (env "output").isCArray = true
+
+/-- `_convolve.find2d`: `array.dim(1)`, `target.dim(1)` exist; `out` has `N0*N1` elements in C order -/
+def PreFind2d (env : Env) : Prop :=
+  (env "array").ndim = 2 ∧ (env "target").ndim = 2 ∧ (env "output").shape = (env "array").shape ∧ (env "output").isCArray = true
+
+/-- `hitmiss` (wrapper): equal rank, at least 1 (`shape ≠ []`, `bshape.length = shape.length` of `C10_hitmiss_in_bounds`) -/
+def PreHitmissW (env : Env) : Prop := (env "input").ndim = (env "Bc").ndim ∧ 1 ≤ (env "input").ndim
+/-- `_morph.hitmiss` (native): the result has the shape of the array and is a C array (`res.at_flat(i)`, `i < N`) -/
+def PreHitmissN (env : Env) : Prop := (env "res_a").shape = (env "array").shape ∧ (env "res_a").isCArray = true
+
+/-- `majority_filter` (wrapper): a matrix and a window `N ≥ 2` (so `0 ≤ N`, the hypothesis of `C10_majority_in_bounds`) -/
+def PreMajorityW (env : Env) : Prop := (env "img").ndim = 2 ∧ 2 ≤ (env "N").ival
+/-- `_morph.majority_filter` (native): a matrix, the result of the same shape and a C array (flat output index) -/
+def PreMajorityN (env : Env) : Prop :=
+  (env "array").ndim = 2 ∧ (env "res_a").shape = (env "array").shape ∧ (env "res_a").isCArray = true
+
+/-- `_distance.dt`: the loops (with `size/n`) are reached only with a 2-D array without a zero-length axis -/
+def PreDt (env : Env) : Prop := (env "f").ndim = 2 ∧ (env "f").size ≠ 0
+/-- `distance` (wrapper): at least one axis, no zero-length axis -/
+def PreDistance (env : Env) : Prop := 1 ≤ (env "bw").ndim ∧ 0 < (env "bw").size
+
+/-- `_center_of_mass.center_of_mass`: when labels are given they are an int32 C array of the shape of the image, hence
+    `labels[i]`, `i < img.size`, is inside the labels buffer (`hs` of `C10_center_of_mass_in_bounds`) -/
+def PreCenterOfMass (env : Env) : Prop :=
+  (env "labels_obj").kind ≠ 0 →
+    (env "labels_obj").kind = 1 ∧ (env "labels_obj").shape = (env "array").shape ∧ (env "labels_obj").isCArrayRO = true ∧
+      ((env "array").size : Int) ≤ ((env "labels_obj").size : Int)
+
+/-- `labeled.bbox`: no negative label (`0 ≤ label` of `C10_bbox_labeled_in_bounds`) -/
+def PreBbox (env : Env) : Prop := (env "f").hasNeg = false
+
+/-- `cooccurence` with a caller-supplied 2-D `output`: both dimensions exceed the largest pixel value
+    (`hm0`, `hm1` of `C10_cooccurence_in_bounds`; the maximum of `f` is `(env "f").ival`) -/
+def PreCooccurence (env : Env) : Prop :=
+  (env "f").ival < ((env "output").shape.getD 0 0 : Int) ∧ (env "f").ival < ((env "output").shape.getD 1 0 : Int)
+
+/-- `rank_filter` / `median_filter`: the rank selects an element of the neighbourhood -/
+def PreRank (env : Env) : Prop := 0 ≤ (env "rank").ival ∧ (env "rank").ival < ((env "Bc").nnz : Int)
+
+/-- `convolve1d` fast path: fewer weights than the length of the filtered axis (`hg` of `C10_convolve1d_python_guard`) -/
+def PreConv1dFast (env : Env) : Prop :=
+  ((env "weights").shape.getD 0 0 : Int) < ((env "f").shape.getD (env "axis").ival.toNat 0 : Int)
+
+/-- `interpolate.shift` (wrapper): every shift is finite (the kernel turns coordinates into indices) -/
+def PreShift (env : Env) : Prop := (env "shift").hasNonFinite = false
+/-- `_interpolate.zoom_shift` (native): image and output are C arrays of one type; a `shifts`/`zooms` array is a C
+    array with one entry per axis of the image (the kernel reads `shifts[d]`, `zooms[d]` for `d < ndim`) -/
+def PreZoomShift (env : Env) : Prop :=
+  (env "array").isCArray = true ∧ (env "output").isCArray = true ∧
+  ((env "shifts").kind = 1 → (env "shifts").isCArray = true ∧ (1 ≤ (env "shifts").shape.length → (env "shifts").shape.getD 0 0 = (env "array").ndim)) ∧
+  ((env "zooms").kind = 1 → (env "zooms").isCArray = true ∧ (1 ≤ (env "zooms").shape.length → (env "zooms").shape.getD 0 0 = (env "array").ndim))
+
+/-- `get_structuring_elem` with an ndarray `Bc`: the rank of the image and at least one element -/
+def PreStructElem (env : Env) : Prop := (env "A").ndim = (env "Bc").ndim ∧ 0 < (env "Bc").size
+
 def handle (a : Args) : String :=
   match a.str "kind" with
   | "guards" =>
@@ -55,6 +133,14 @@ def handle (a : Args) : String :=
       match firstReject gs env with
       | some i => s!"verdict=reject atom={i} n={gs.length}"
       | none => s!"verdict=accept atom=-1 n={gs.length}"
+  | "nguards" =>
+    match nativeGuardsOf (a.str "fn") with
+    | none => "verdict=unknown-fn atom=-1 n=0 action=-1"
+    | some gs =>
+      let env := envOfArgs a
+      match nfirstReject gs env with
+      | some i => s!"verdict=reject atom={i} n={gs.length} action={(actionsOf ("n:" ++ a.str "fn")).getD i 9}"
+      | none => s!"verdict=accept atom=-1 n={gs.length} action=-1"
   | "seeds" =>
     let s := seeds (a.nat "s") (a.nat "n")
     s!"seeds={showNats s} count={s.length}"
